@@ -39,7 +39,7 @@ type C05Scenario struct {
 
 func (C05) ID() string { return "C05" }
 func (C05) Rule() string {
-	return "layer histories of 1-6 real layers plus 0-3 empty history entries in any position (valid, missing or inconsistent histories) over 1-3 package-list files in the line format 'name version'; per layer each file is untouched, created, rewritten (packages added / removed / version-bumped with identical byte size and identical mtime / kept), deleted by a whiteout of the file or of an ancestor directory, or re-created; in 3 of 4 scenarios every layer carries a unique marker file (distinct diff IDs), otherwise layers may be byte-identical repeats of the previous one (equal diff IDs); distinct created_by per history entry; 1-2 harness extractors with different purl types which may require the same file; real FromV1Image/FromTarball -> real Scanner.ScanContainer (real trace.PopulateLayerDetails re-running the real filesystem.Run on older views); oracle = brute-force recomputation of 'earliest layer L with (purl, location) present in every view L..last' by opening and parsing the file in EVERY actual chain-layer view; evaluation = one load + one container scan; non-trivial = at least one reported package whose origin is not chain layer 0 or whose file was touched by >= 2 layers; distinct = distinct scenario JSON"
+	return "layer histories of 1-6 real layers plus 0-3 empty history entries in any position (valid, missing or inconsistent histories) over 1-3 package-list files in the line format 'name version'; per layer each file is untouched, created, rewritten (packages added / removed / version-bumped with identical byte size and identical mtime / kept), deleted by a whiteout of the file or of an ancestor directory, or re-created; in 3 of 4 scenarios every layer carries a unique marker file (distinct diff IDs), otherwise layers may be byte-identical repeats of any earlier one (equal diff IDs, e.g. re-adding what a layer in between removed); distinct created_by per history entry; 1-2 harness extractors with different purl types which may require the same file; real FromV1Image/FromTarball -> real Scanner.ScanContainer (real trace.PopulateLayerDetails re-running the real filesystem.Run on older views); oracle = brute-force recomputation of 'earliest layer L with (purl, location) present in every view L..last' by opening and parsing the file in EVERY actual chain-layer view; evaluation = one load + one container scan; non-trivial = at least one reported package whose origin is not chain layer 0 or whose file was touched by >= 2 layers; distinct = distinct scenario JSON"
 }
 
 var c05Files = []string{"var/lib/db/status", "var/lib/db/extra", "var/lib/alt/status", "etc/pkgs"}
@@ -68,9 +68,25 @@ func (C05) Gen(rt *rapid.T, tier string) any {
 	marker := rapid.IntRange(0, 3).Draw(rt, "marker") > 0
 	for i := 0; i < nl; i++ {
 		var l LayerSpec
-		if i > 0 && !marker && rapid.IntRange(0, 3).Draw(rt, "repeat_layer") == 0 {
-			prev := sc.Image.Layers[i-1]
+		if i > 0 && !marker && rapid.IntRange(0, 2).Draw(rt, "repeat_layer") == 0 {
+			// a byte-identical copy of ANY earlier layer (e.g. re-adding what a layer in between removed)
+			prev := sc.Image.Layers[rapid.IntRange(0, i-1).Draw(rt, "repeat_which")]
 			l.Entries = append(l.Entries, prev.Entries...)
+			for _, e := range prev.Entries {
+				switch e.Kind {
+				case "f":
+					state[e.Path] = nil
+					for _, nv := range parseList([]byte(e.Data)) {
+						state[e.Path] = append(state[e.Path], nv[0]+" "+nv[1])
+					}
+				case "w":
+					for _, g := range files {
+						if g == e.Path || strings.HasPrefix(g, e.Path+"/") {
+							delete(state, g)
+						}
+					}
+				}
+			}
 			l.Chunk = genChunk(rt, "chunk")
 			sc.Image.Layers = append(sc.Image.Layers, l)
 			continue
